@@ -193,7 +193,7 @@ def write_results():
                     caught.setdefault(p, []).append(tier)
         tgt = m["property"]
         rows.append("| %s | %s | %s | %s | %s |" % (name, tgt, "yes" if m.get("verified_ok") else "NO",
-                                                 ", ".join("%s(%s)" % (p, "/".join(sorted(set(t)))) for p, t in sorted(caught.items())) or "**missed**",
+                                                 ", ".join("%s(%s)" % (p, "/".join(sorted(set(t)))) for p, t in sorted(caught.items())) or ("outside the property's quantifier (see meta.json)" if m.get("outside_quantifier") else "**missed**"),
                                                  (m.get("needs_to_manifest") or "").replace("\n", " ")[:160]))
     with open(os.path.join(VERIF, "selftest", "RESULTS.md"), "w") as f:
         f.write("# Seeded changes: which checks catch which change\n\n")
